@@ -193,8 +193,13 @@ def _rand_case(rng, i):
 
 def cases(ctx):
     cs = ctx.gen("MC_Goal", "GEN_Goal_t.cfg" if ctx.thorough else "GEN_Goal.cfg")
+    bands = 0
     for c in cs:
         c["src"] = "tlc"
+        bands += c.pop("bands", 0)            # evidence only; never reaches execute()
+    ctx.extra["either_band"] = {"tlc_probe_states": sum(len(c["states"]) for c in cs), "expected_EITHER": bands,
+                                "note": "declared in Goal.tla!SatAngle: orientation on an interval end point after a "
+                                        "non-zero number of full turns / of an interval the constructor moved by 2pi"}
     for i in range(4000 if ctx.thorough else 400):
         cs.append(_rand_case(ctx.rng, i))
     for i, c in enumerate(cs):
